@@ -6,6 +6,9 @@ ALLOC_RUN = {"harness": "halloc", "driver": "allocdrv", "fields": None, "corpus"
 JOBQ_RUN = {"harness": "hjobq", "driver": "jobqdrv", "fields": None, "corpus": "conc-jobq",
             "quick": {"n": 250, "shards": 12}, "thorough": {"n": 2500, "shards": 32}}
 
+TPOOL_RUN = {"harness": "htpool", "driver": "tpooldrv", "fields": None, "corpus": "conc-tpool",
+             "quick": {"n": 120, "shards": 12}, "thorough": {"n": 1200, "shards": 32}}
+
 PROPS = {
     "C05": {
         "manifest": {
@@ -27,6 +30,28 @@ PROPS = {
                 "(config, per-op kind, conn, must, nested, closed, panic); non-trivial iff a job finished or a burst ran",
         "assumptions": ["a model step is atomic in the code: Execute/MustExecute/execute touch closed/jobList only under c.mux",
                         "the executor eventually runs what it is given (scheduler fairness)"],
+    },
+    "C19": {
+        "manifest": {
+            "text": "Lean theorems over all action sequences of a transition system whose steps are the atomic adds, channel operations "
+                    "and task boundaries of TaskPool.fork/Go/worker loop/dispatcher/Stop: running <= bound, conservation (every task handed "
+                    "over is in exactly one of in-flight/queued/running/done/dropped), idle => counter = 0 and fresh barrier capacity, panic "
+                    "contained; timer.Async is an instance of the C05 job-queue system (FIFO, exactly once). The model is tied to the real "
+                    "pool by replaying generated schedules with gated tasks (overload bursts, full queue, Go calls parked inside the atomic "
+                    "hook, Stop) and checking that every stable state the implementation reaches is a stable successor state of the model; "
+                    "bound / exactly-once / panic / barrier-capacity oracles run on the implementation alone",
+            "note": "interleavings of the real code are not enumerated (Lean quantifies over the model's schedules, the harness replays "
+                    "chosen ones); the custom-caller variant of taskpool.New is not modelled; tasks still queued at Stop are recorded as a finding",
+            "technique": "Lean 4 proof (inductive invariants of a transition system) + schedule replay / differential correspondence"},
+        "lean": ["NbioVerif.Properties.C19"], "drivers": ["tpooldrv", "jobqdrv"], "harness": ["htpool", "hjobq"],
+        "runs": [TPOOL_RUN, JOBQ_RUN],
+        "oracles": ["c19-"],
+        "rule": "case = (bound, queue size, IO wrapper?, schedule of go(park) / release / finish(panic) / stop / barrier probe); distinct by "
+                "hash of (config, per-op kind, park mode, #running, panic); non-trivial iff the queue or a blocked Go call was observed, a "
+                "parked call was released, Stop happened or the barrier probe ran; plus the hjobq stream (timer.Async cases)",
+        "assumptions": ["a model step is atomic in the code (atomic adds, channel operations)",
+                        "goroutine scheduling is fair; channel and select semantics of the Go runtime as modelled",
+                        "bound >= 1 for the bound theorem (taskpool.New(0, ..) still runs one task at a time on the dispatcher)"],
     },
     "C20": {
         "manifest": {
